@@ -532,8 +532,9 @@ class Shelxfile():
                 if s not in self._reslist:
                     self._reslist[line_num] = s
                 else:
-                    self.delete_on_write.update([line_num])
-                    self._reslist[line_num] = ' '
+                    # Blank the entry in place (skipped on write) instead of remembering its absolute index,
+                    # which any later insertion or deletion in _reslist would invalidate:
+                    self._reslist[line_num] = ''
                 lastcard = 'SYMM'
             elif word == 'SFAC':
                 # SFAC elements or
@@ -549,8 +550,10 @@ class Shelxfile():
                 if self.sfac_table not in self._reslist:
                     self._reslist[line_num] = self.sfac_table
                 else:
-                    self.delete_on_write.update([line_num])
-                    self._reslist[line_num] = ' '
+                    # This line is now part of the SFAC table object above. Blank the entry in place
+                    # (skipped on write) instead of remembering its absolute index in delete_on_write,
+                    # which any later insertion or deletion in _reslist would invalidate:
+                    self._reslist[line_num] = ''
                 lastcard = 'SFAC'
             elif word == 'UNIT':
                 # UNIT n1 n2 ...
@@ -587,7 +590,8 @@ class Shelxfile():
                     if self.fvars not in self._reslist:
                         self._reslist[line_num] = self.fvars
                     else:
-                        self.delete_on_write.update([line_num])
+                        # Second and later FVAR lines are printed by the FVARs object of the first one:
+                        self._reslist[line_num] = ''
             elif word == 'ANIS':
                 # ANIS n or ANIS names
                 # Must be before Atom(), to know which atom is anis.
